@@ -27,6 +27,8 @@ def check_predict(chk, rep, repo, cls, fields):
     w = model_walk(repo, cls, "predict")
     fn = w.entry
     G = ("attr", ("self",), "subgraph")
+    from ..common import require_scalar_fragment
+    require_scalar_fragment(w, w.entry.qual)
     scans = find_knn_scans(w)
     if not scans:
         from ..rules_knn import report_missing_scan
